@@ -17,6 +17,8 @@ inductive Ev where
   | flushEnd (m : Nat) (ok : Bool)             -- Fe
   | wireAck (m rid part first last ty t : Nat) -- Wa: one AcknowledgementBatch of request rid
   | wireRes (m rid part code : Nat)            -- Wr: acknowledge result delivered for request rid
+  | wireLost (m rid : Nat)                     -- Wx: the response of request rid was lost with its connection
+  | connCut (m : Nat)                          -- Xc: a share connection of member m was cut (the broker releases what m acquired on it)
   | acquired (m part first last dc t : Nat)    -- Wq: AcquiredRecords range delivered to m
   | closeStart (m : Nat)                       -- Cs
   | closed (m : Nat)                           -- Cl
@@ -134,12 +136,18 @@ def check (s : St) : Ev → Option String
   | .wireAck m rid part first last ty _ =>
     if first > last then some "C12.wire-batches-not-ascending"
     else match s.batches.find? (fun b => b.rid == rid && b.part == part) with
-      | some b => if first ≤ b.last then some "C12.wire-batches-not-ascending" else
+      | some b => if first ≤ b.last then
+            -- the same gap range twice in a row (a requeued gap acknowledgement and the gap of a re-acquisition of the
+            -- same offsets; the range builder dedupes user entries only) is told apart from other disorder
+            (if b.first == first && b.last == last && b.ty == 0 && ty == 0 then some "C12.wire-gap-batch-duplicated"
+             else some "C12.wire-batches-not-ascending") else
           if unbacked s m part first last ty then some (twiceKey s m part first last) else
           if typeDiffers s m part first last ty then some "C12.wire-type-differs-from-ack" else none
       | none =>
           if unbacked s m part first last ty then some (twiceKey s m part first last) else
           if typeDiffers s m part first last ty then some "C12.wire-type-differs-from-ack" else none
+  | .wireLost _ _ => none
+  | .connCut _ => none
   | .wireRes m rid part code =>
     if code != 0 then none
     -- the broker said yes to a final ack of a record that another member holds (acquired strictly before the request
@@ -194,6 +202,13 @@ def apply (s : St) : Ev → St
       { s with pend := s.pend.map (fun p => if p.m == m && p.part == part && p.stage == 1 && p.rid == rid then { p with stage := 2 } else p) }
     else
       { s with pend := s.pend.map (fun p => if p.m == m && p.part == part && p.stage == 1 && p.rid == rid then { p with stage := 0 } else p) }
+  | .wireLost m rid =>
+    -- the member cannot know whether the broker applied the request: the decisions it carried are unsent again
+    -- (a retry is not a second acknowledgement; an error callback may drop them instead)
+    { s with pend := s.pend.map (fun p => if p.m == m && p.stage == 1 && p.rid == rid then { p with stage := 0 } else p) }
+  | .connCut m =>
+    -- the broker drops the session of that connection and releases its records: m no longer counts as holding them
+    { s with acqs := s.acqs.filter (fun a => a.m != m) }
   | .acquired m part first last dc t =>
     { s with acqs := { m := m, part := part, first := first, last := last, dc := dc, t := t } :: s.acqs }
   | .closeStart m => { s with closing := m :: s.closing }
